@@ -319,6 +319,11 @@ type FaultInjector struct {
 	// NoCrash restricts outcomes to errors (for code that issues API calls
 	// from worker goroutines, where a crash cannot be unwound).
 	NoCrash bool
+	// NotFoundReads adds, for Get calls (with Reads), the outcome "404 although
+	// the object exists": a cache that has not seen the object yet.
+	NotFoundReads bool
+	// NotFoundFilter, if set, limits NotFoundReads to the calls it accepts.
+	NotFoundFilter func(c simkube.Call) bool
 }
 
 var writeOutcomes = []simkube.Outcome{simkube.OK, simkube.ErrBefore, simkube.Conflict, simkube.ErrAfter, simkube.CrashBefore, simkube.CrashAfter}
@@ -344,6 +349,9 @@ func (f *FaultInjector) Decide(c simkube.Call) simkube.Outcome {
 		outs = readOutcomes
 		if f.NoCrash {
 			outs = readOutcomes[:2]
+		}
+		if f.NotFoundReads && c.Verb == "get" && (f.NotFoundFilter == nil || f.NotFoundFilter(c)) {
+			outs = append(append([]simkube.Outcome{}, outs...), simkube.NotFound)
 		}
 	}
 	i := f.Run.Choose(len(outs), "api:"+c.String())
